@@ -191,6 +191,35 @@ def n6_closure_patterns(text, fired):
     return text
 
 
+def n15_closure_contract(text, n, params, ret, lines, fired, qname):
+    """N15: the n-th closure `|p| EXPR` (argument position) becomes `|p: T| -> (r: U) <contract> { EXPR }`:
+    type annotations, a named result and braces are added; EXPR is untouched."""
+    m = mask(text)
+    hits = [mm for mm in re.finditer(r'(?<=\()\s*\|\s*[a-z_][a-z0-9_]*(?:\s*,\s*[a-z_][a-z0-9_]*)*\s*\|', m)]
+    if n > len(hits):
+        raise GenError('lost anchor: %s has %d closures, contract names closure %d' % (qname, len(hits), n))
+    mm = hits[n - 1]
+    depth, k = 0, mm.end()
+    while k < len(m):
+        if m[k] in '([{':
+            depth += 1
+        elif m[k] in ')]}':
+            if depth == 0:
+                break
+            depth -= 1
+        k += 1
+    body = text[mm.end():k].strip()
+    trail = ''
+    if body.endswith(','):
+        body, trail = body[:-1].rstrip(), ','
+    if not body.startswith('{'):
+        body = '{ ' + body + ' }'
+    contract = '\n'.join(lines)
+    new = '|%s| -> (%s)\n%s\n%s%s' % (params, ret, contract, body, trail)
+    fired['N15'] = fired.get('N15', 0) + 1
+    return text[:mm.start()] + new + text[k:]
+
+
 def n9_step_by(text, fired):
     """for X in (A..B).step_by(K) { BODY }  ->  let mut X = A; while X < B { BODY X = vx_step(X, K); }"""
     m = mask(text)
@@ -417,7 +446,7 @@ class Gen:
                         dd = shlex.split(sj[3:].strip())
                         if dd[0] == 'endfn':
                             break
-                        if dd[0] in ('loop', 'at', 'start', 'sigattr', 'tail'):
+                        if dd[0] in ('loop', 'at', 'start', 'sigattr', 'tail', 'closure'):
                             sections.append((dd[0], dd[1:], [], j + 1))
                         else:
                             raise GenError('%s:%d unexpected directive %s inside fn' % (tmpl_path, j + 1, dd[0]))
@@ -584,6 +613,9 @@ class Gen:
         body2 = n6_closure_patterns(body2, fired)
         body2 = n9_step_by(body2, fired)
         body2 = n13_hoist_iter_temp(body2, fired)
+        for kind, args, slines, tl in sections:
+            if kind == 'closure':
+                body2 = n15_closure_contract(body2, int(args[0]), args[1], args[2], [l for (l, _) in slines], fired, qname)
         info.sha_after = sha(sig2 + body2)
         info.text_after = sig2 + '\n' + body2
         # --- splice ghost sections into body (line based, never editing executable tokens)
@@ -652,7 +684,7 @@ class Gen:
                     raise GenError('bad at-position %s' % where)
         # --- emit
         start_line = len(self.out) + 1
-        if trusted:
+        if trusted and not decl_only:
             self.emit('#[verifier::external_body]', ('tmpl', tmpl_path, 0), info)
         for (l, tl) in sigattrs:
             self.emit(l, ('tmpl', tmpl_path, tl), info)
